@@ -43,6 +43,7 @@ def queries(tier):
                         params={"kernel": "nni_pipe_close / pipe_reap / nni_pipe_find / rele / pipe_destroy", "other_reference_holders": extra, "looked_up_id": "any 32-bit value"}))
     qs += inproc_ep_queries(tier)
     qs += tran_listener_queries(tier)
+    qs += tran_dialer_queries(tier)
     return qs
 
 
@@ -62,6 +63,25 @@ def tran_listener_queries(tier):
             qs.append(Query("%s-listener-%s" % (tn, skel.tag(w)), "c14/tran_listener.c", tus=["core/list.c", "core/options.c"], env=LENV, defs={"TRAN": tr, "SKEL": w},
                             cdefs=["-DENV_MSG_CAP=8"], unwind=12, unwind_rules=KIT_RULES, timeout=300, group="c14/tran_listener.c-" + tn,
                             params={"unit": "sp/transport/%s/%s.c listener endpoint" % (tn, tn), "skeleton": w}))
+    return qs
+
+
+def tran_dialer_queries(tier):
+    """the dialing endpoint of the tcp / ipc transport (real tcp.c / ipc.c): the connect request core/dialer.c posts completes exactly once, with a code that
+    lets the dialer redial after every failure that is not its own close"""
+    from vp import skel
+    LENV = ["env_alloc.c", "env_misc.c", "env_sync.c", "env_aio.c", "env_msg.c", "env_pipe.c", "env_libc.c"]
+    # (a new connect request after an ABORTED one is not issued by core/dialer.c - the abort code ends its redialing - so no word has U after X)
+    words = ["U(0) D0 N(1) Z", "U(0) DR U(1) D0 N(1) Z", "U(0) DP U(1) D0 N(0) U(2) D0 N(1)", "U(0) D0 N(2) U(1) D0 N(1) Z", "U(0) U(1) D0 N(1)", "U(0) D0 X(0) N(1) Z",
+             "U(0) X(0) Z", "U(0) Z", "U(0) D0 Z", "Z U(0)", "U(0) DR U(1) DR U(2) DP", "U(0) D0 N(0) U(1) D0 N(2) U(2) D0 N(1) Z"]
+    if tier != "quick":
+        words += ["U(0) D0 N(1) U(1) D0 N(1) Z", "U(0) DP Z", "U(0) D0 X(0) Z", "U(0) DR Z U(1)"]
+    qs = []
+    for tr, tn in ((0, "tcp"), (2, "ipc")):
+        for w in words:
+            qs.append(Query("%s-dialer-%s" % (tn, skel.tag(w)), "c14/tran_dialer.c", tus=["core/list.c", "core/options.c"], env=LENV, defs={"TRAN": tr, "SKEL": w},
+                            cdefs=["-DENV_MSG_CAP=8"], unwind=12, unwind_rules=KIT_RULES, timeout=300, group="c14/tran_dialer.c-" + tn,
+                            params={"unit": "sp/transport/%s/%s.c dialer endpoint" % (tn, tn), "skeleton": w}))
     return qs
 
 
